@@ -299,6 +299,56 @@ static void tf_high(bool thorough)
     R.part(std::string("transfer function, orders up to ") + std::to_string(NMAX) + "/" + std::to_string(NMAX) + ": tap-identifying coefficient vectors (index-coded, unit vectors at every position; zero, one-tap +-1, period-3 and all -1 denominators) x impulse, delayed impulse, ramp and sign-pattern words of length <= 14, zeroing at mid-word", n_eval - e0, n_nt - t0);
 }
 
+// ---------------------------------------------------------------- transfer function on data far from 1
+// Scaling every sample by a power of two scales every term of the difference equation exactly, so the response to 2^e * x is 2^e times
+// the response to x bit for bit as long as nothing leaves the range of the real type - for e near both ends of that range too (a clamp,
+// a flush or a detour through a narrower type shows up here).
+static void tf_scaled()
+{
+    uint64_t n = 0;
+    struct F2 { std::vector<double> num, den; };
+    const std::vector<F2> fs = {{{1, 2}, {-1, 0, 1}}, {{2, -1, 1}, {}}, {{1}, {1, -1, 1}}, {{1, 2, -1, 3, 1}, {0, -1, 0, 1, 0}}, {{0, 1}, {0, -0.5}}};
+    const size_t L = 8;
+    std::vector<std::vector<double>> ws;
+    { std::vector<double> w(L, 0.0); w[0] = 1; ws.push_back(w); }
+    { std::vector<double> w; for (size_t k = 0; k < L; ++k) { w.push_back((double)(k % 5) + 1); } ws.push_back(w); }
+    { std::vector<double> w; for (size_t k = 0; k < L; ++k) { w.push_back((k % 2 ? -1.0 : 1.0) * (double)(k % 3 + 1)); } ws.push_back(w); }
+#if A_SIZE_REAL + 0 == 4
+    const std::vector<int> es = {-110, -100, -60, -30, 30, 60, 100, 110};
+#else
+    const std::vector<int> es = {-1000, -900, -500, -130, -40, 40, 130, 500, 900, 1000};
+#endif
+    for (const auto &f : fs)
+    {
+        for (const auto &w : ws)
+        {
+            std::vector<double> x, y;
+            for (size_t k = 0; k < L; ++k) { x.push_back(w[k]); y.push_back(ref_output(f.num, f.den, x, y, k)); }
+            for (int e : es)
+            {
+                for (double sg : {1.0, -1.0})
+                {
+                    Filter F(f.num, f.den);
+                    std::string in = "{\"num\":" + vec(f.num) + ",\"den\":" + vec(f.den) + ",\"inputs\":" + vec(w) + ",\"scaled_by\":\"" + (sg < 0 ? "-" : "") + "2^" + std::to_string(e) + "\"}";
+                    for (size_t k = 0; k < L; ++k)
+                    {
+                        a_real got = a_tf_iter(&F.tf, (a_real)std::ldexp(sg * w[k], e));
+                        a_real want = (a_real)std::ldexp(sg * y[k], e);
+                        ++n;
+                        if (!(got == want))
+                        {
+                            R.viol("tf|scaled|equation", "with every sample scaled by " + std::string(sg < 0 ? "-" : "") + "2^" + std::to_string(e) + " the output at sample " + std::to_string(k) + " is " + ::num((double)got) + ", the difference equation gives " + ::num((double)want) + " (the scaled value of " + ::num(y[k]) + ")", in);
+                            break;
+                        }
+                    }
+                }
+            }
+        }
+    }
+    n_eval += n;
+    R.part("transfer function on samples scaled by +-2^e for e near both ends of the real type's range: 5 filters x 3 words of length 8, every output equal to the scaled output of the difference equation", n, n);
+}
+
 #if A_SIZE_REAL + 0 == 16
 // ---------------------------------------------------------------- long double reals: samples that need more than the 53 bits of a double
 // x_k = c_k * (1 + 2^-56) with small integer c_k, taps from {1, 2, 4}, feedback {} / {0} / {-1}: every product and partial sum is a
@@ -597,6 +647,7 @@ int main(int argc, char **argv)
         tf_all(thorough);
         tf_high(thorough);
         same_samples();
+        tf_scaled();
 #if A_SIZE_REAL + 0 == 16
         tf_wide();
 #endif
